@@ -109,6 +109,11 @@ def handle (s : St) (line : String) : St × String :=
     match s.tbl, s.sib with
     | some l, some b => ({ s with tbl := some b, sib := some l }, "ok")
     | _, _ => (s, noTable)
+  | "rmcols" :: names =>   -- table.remove_columns([...])
+    match s.tbl, names.mapM parseCps with
+    | some (t, a), some ns => ({ s with tbl := some (removeCols t ns, a) }, "ok")
+    | none, some _ => (s, noTable)
+    | _, none => (s, "bad-op")
   | ["ctorobj"] =>   -- PPTable(records, fmt_obj=table.fmt, header=…, footer=…)
     match s.tbl with
     | some (t, a) => ({ s with tbl := some (mkTableFromFmt t.fmt t.records none none a.header a.footer, a) }, "ok")
